@@ -22,7 +22,7 @@ TRUSTED = [
     "tools/rs2v.py expression translator + tools/gen/gen_u32s.py (shape check of the two try_from bodies, arms `err` -> true, "
     "`Ok(U32s::from(BigUint::from(value)))` -> false) and coq/lib/Word.v semantics of Rust u32/u64/u128 operators",
     "extraction: ExtrOcamlBasic + ExtrOcamlZBigInt (positive, N, Z -> zarith) plus one extra directive in extract/ExtractC19.v "
-    "(Z.pow -> zarith power, 0 for a negative exponent), OCaml 4.13.1, zarith 1.12",
+    "(Z.pow -> zarith power, 0 for a negative exponent), OCaml 4.13.1, zarith 1.12; cross-checked on every run: a sample of add / sub / mul / div / rem / mul_two cases (50 per op quick, 300 thorough) is evaluated by vm_compute INSIDE Coq (tools/vmcross.py) and must print what the extracted oracle prints",
     "correspondence harness (harness/src/bin/c19.rs), oracle driver (ocaml/c19.ml), case generator (tools/props/c19.py)",
     "modelled by hand, tied by correspondence only (coq/model/U32s.v): every loop of u32s.rs - add, sub, mul, rem_div, mul_two, "
     "div_two, set_bit/get_bit, Ord, Zero/One, Sum, From<u32>, From<BigUint>, Into<BigUint>, Into<[BFieldElement;N]>, BFieldCodec, "
@@ -387,3 +387,69 @@ def finding_key(case, impl, model):
     if n == 0 and op == "from_u32" and int(t[2]) == 0 and impl == "PANIC":
         return "u32s0-tryfrom-zero"
     return None
+
+
+# ------------------------------------------------------------------ extraction cross-check (Coq's VM against the oracle)
+VM_OPS = {"add": "u32s_add", "sub": "u32s_sub", "mul": "u32s_mul", "div": "u32s_div", "rem": "u32s_rem",
+          "mul_two": "u32s_mul_two"}
+
+
+def extra_checks(ctx):
+    """A sample of arithmetic cases evaluated by `vm_compute` inside Coq (no extraction, no OCaml) must print what the
+    extracted, zarith-mapped oracle prints."""
+    import os
+    import random
+    import re
+    import sys
+    sys.path.insert(0, os.path.join(os.path.dirname(os.path.abspath(__file__)), ".."))
+    import runner
+    import vmcross
+    info = {"vm_cross_check_sample": 0, "vm_cross_check_mismatches": 0}
+    if not ctx.get("oracle"):
+        return {"violations": [], "info": info}
+    rng = random.Random(ctx["seed"] + 29)
+    pool = []
+    for k, c in cases("quick", rng):
+        w = c.split()
+        if w and w[0] in VM_OPS and all(re.fullmatch(r"\d+", a) for a in w[1:]):
+            n = int(w[1])
+            if len(w) - 2 == (n if w[0] == "mul_two" else 2 * n):
+                pool.append(c)
+    pool = sorted(set(pool))
+    rng.shuffle(pool)
+    per_op, sample = {}, []
+    for c in pool:
+        o = c.split()[0]
+        if per_op.get(o, 0) < (50 if ctx["tier"] == "quick" else 300):
+            per_op[o] = per_op.get(o, 0) + 1
+            sample.append(c)
+    items = []
+    for i, c in enumerate(sample):
+        w = c.split()
+        n = int(w[1])
+        xs = w[2:2 + n]
+        ys = w[2 + n:2 + 2 * n]
+        lst = lambda l: "[" + "; ".join(l) + "]"
+        expr = "%s %s" % (VM_OPS[w[0]], lst(xs)) if w[0] == "mul_two" else "%s %s %s" % (VM_OPS[w[0]], lst(xs), lst(ys))
+        items.append((str(i), expr, "optok"))
+    got, err = vmcross.run(runner.COQ, "From TF Require Import Word U32s.", items)
+    if got is None:
+        return {"violations": [{"kind": "vm-cross-check-failed", "detail": err, "no_input": True}], "info": info}
+    want, err, _ = runner.run_lines(ctx["oracle"], [], ["%d %s" % (i, c) for i, c in enumerate(sample)], 600)
+    if want is None:
+        return {"violations": [{"kind": "vm-cross-check-oracle-failed", "detail": err, "no_input": True}], "info": info}
+    viol, bad = [], 0
+    for i, c in enumerate(sample):
+        x, y = want.get(str(i)), got.get(str(i))
+        if x is not None and x.startswith("SPECDIFF"):
+            continue
+        if (x or "").strip() != (y or "").strip():
+            bad += 1
+            if len(viol) < 3:
+                viol.append({"kind": "extraction-cross-check", "case": c, "impl": "extracted oracle: %s" % x,
+                             "model": "Coq vm_compute: %s" % y, "no_input": True,
+                             "why": "the extracted (zarith-mapped) model and the same Gallina term evaluated inside Coq disagree"})
+    info["vm_cross_check_sample"] = len(sample)
+    info["vm_cross_check_ops"] = per_op
+    info["vm_cross_check_mismatches"] = bad
+    return {"violations": viol, "info": info}
